@@ -357,6 +357,7 @@ type lcWallet struct {
 	txs         []lndclient.Transaction
 	nextKey     *keychain.KeyDescriptor
 	failFunding bool
+	failList    bool // fault injection: ListTransactions fails
 	utxoSeq     uint32
 	fundSeq     uint32
 	fundCalls   int
@@ -380,6 +381,7 @@ func (w *lcWallet) PublishTransaction(_ context.Context, tx *wire.MsgTx, _ strin
 	w.pubCalls++
 	w.mu.Unlock()
 	w.env.addEvent(lcEvent{Kind: 'P', Acct: w.env.acctOfTx(tx), Tx: tx.TxHash(), HasTx: true})
+	w.env.noteSpender(tx)
 	return nil
 }
 func (w *lcWallet) SendOutputs(_ context.Context, outputs []*wire.TxOut,
@@ -423,6 +425,9 @@ func (w *lcWallet) ListTransactions(context.Context, int32, int32,
 
 	w.mu.Lock()
 	defer w.mu.Unlock()
+	if w.failList {
+		return nil, errors.New("rpc error: wallet unavailable")
+	}
 	return append([]lndclient.Transaction(nil), w.txs...), nil
 }
 func (w *lcWallet) ReleaseOutput(context.Context, wtxmgr.LockID, wire.OutPoint) error { return nil }
@@ -595,7 +600,8 @@ func (s *lcSigner) MuSig2Cleanup(context.Context, [32]byte) error { return nil }
 
 type lcAuctioneer struct {
 	account.Auctioneer
-	inits int
+	inits   int
+	failSub bool // fault injection: StartAccountSubscription fails
 }
 
 func (a *lcAuctioneer) ReserveAccount(context.Context, btcutil.Amount, uint32,
@@ -613,6 +619,9 @@ func (a *lcAuctioneer) ModifyAccount(context.Context, *account.Account, []*wire.
 	return []byte("auctioneer sig"), nil, nil
 }
 func (a *lcAuctioneer) StartAccountSubscription(context.Context, *keychain.KeyDescriptor) error {
+	if a.failSub {
+		return errors.New("auctioneer connection down")
+	}
 	return nil
 }
 func (a *lcAuctioneer) Terms(context.Context) (*terms.AuctioneerTerms, error) {
@@ -669,6 +678,9 @@ type lcEnv struct {
 	staleApplied bool
 	allowStale   bool
 
+	// what the chain knows: the (published / batch) transaction that spends an outpoint
+	spenders map[wire.OutPoint]*wire.MsgTx
+
 	barrier    *lcBarrier
 	handlerErr map[int]error
 	scriptMu   sync.Mutex
@@ -701,6 +713,7 @@ func newLcEnv(r *Run) *lcEnv {
 		r: r, dir: dir, height: 1000,
 		confDone: make(chan struct{}, 64), spendDone: make(chan struct{}, 64),
 		txNames: map[chainhash.Hash]int{{}: 0}, scripts: map[string]string{},
+		spenders: map[wire.OutPoint]*wire.MsgTx{},
 	}
 	// three trader keys; ids follow the byte order of the compressed keys
 	// (= bbolt iteration order = order of resumption on start-up)
@@ -771,6 +784,31 @@ func (e *lcEnv) count(bucket string) {
 	e.logMu.Lock()
 	e.r.Count(bucket)
 	e.logMu.Unlock()
+}
+
+// noteSpender records a transaction that reached the network.
+func (e *lcEnv) noteSpender(tx *wire.MsgTx) {
+	e.logMu.Lock()
+	defer e.logMu.Unlock()
+	for _, in := range tx.TxIn {
+		if _, ok := e.spenders[in.PreviousOutPoint]; !ok {
+			e.spenders[in.PreviousOutPoint] = tx
+		}
+	}
+}
+
+func (e *lcEnv) dropSpender(tx *wire.MsgTx) {
+	if tx == nil {
+		return
+	}
+	e.logMu.Lock()
+	defer e.logMu.Unlock()
+	h := tx.TxHash()
+	for op, t := range e.spenders {
+		if t.TxHash() == h {
+			delete(e.spenders, op)
+		}
+	}
 }
 
 func (e *lcEnv) addEvent(ev lcEvent) {
